@@ -247,6 +247,22 @@ func C09(r *vf.Run) {
 				r.Fail("seeked-reader-consumes", fmt.Sprintf("ReadHeader consumed %d bytes, the header is 80 bytes long", pos-0x7FB0), vf.Hex(raw))
 			}
 		}
+		// the Header is a public field: a caller may have edited it (or parsed something else into it)
+		// without touching the image; reading the header again must bring back what the image holds
+		if len(raw)%2 == 0 && (raw[3]&3) == 0 {
+			other := append([]byte(nil), raw...)
+			for i := range other {
+				other[i] ^= byte(0x5A + i)
+			}
+			_ = rom.Header.ReadHeader(bytes.NewReader(other))
+			rom.Header.ROMSize ^= 0xFF
+			if err := rom.ReadHeader(); err != nil {
+				r.Fail("readheader-error", fmt.Sprintf("ROM.ReadHeader after the Header field was edited in memory: %v", err), vf.Hex(raw))
+			} else if d := diffFields(want, flattenHeader(&rom.Header)); len(d) > 0 || rom.Header.HeaderVersion() != ver {
+				r.Fail("reread-after-field-edit", fmt.Sprintf("v%d: after the Header field was edited in memory (image untouched) ReadHeader reports fields %v (version %d) that are not those of the image", ver, d, rom.Header.HeaderVersion()), vf.Hex(raw))
+			}
+			r.Cell("reread-after-field-edit")
+		}
 		// ReadHeader; WriteHeader leaves the image unchanged
 		if err := rom.WriteHeader(); err != nil {
 			r.Fail("writeheader-error", fmt.Sprintf("WriteHeader: %v", err), vf.Hex(raw))
